@@ -16,6 +16,7 @@ import (
 	"go/parser"
 	"go/token"
 	"os"
+	"os/exec"
 	"path/filepath"
 	"sort"
 	"strings"
@@ -30,12 +31,14 @@ var subst = map[string]string{
 	"sync.Mutex": "simrt.Mutex", "sync.RWMutex": "simrt.RWMutex", "sync.Map": "simrt.Map",
 	"time.AfterFunc": "simrt.AfterFunc", "time.After": "simrt.After", "time.NewTicker": "simrt.NewTicker", "time.NewTimer": "simrt.NewTimer",
 	"net.Dial": "simrt.NetDial", "net.Dialer": "simrt.Dialer",
+	"context.WithCancel": "simrt.WithCancel", "context.WithTimeout": "simrt.WithTimeout", "context.WithDeadline": "simrt.WithDeadline",
 	"github.com/pion/udp.ListenConfig":                        "simrt.UDPListenConfig",
 	"os/signal.Notify":                                        "simrt.SignalNotify",
 	"github.com/energomonitor/bisquitt/packets.MaxTopicAlias": "simrt.MaxTopicAlias()",
 }
 var keepAlive = map[string]string{
 	"sync": "var _ %s.Once", "os/signal": "var _ = %s.Stop", "time": "var _ %s.Duration", "net": "var _ %s.Conn",
+	"context": "var _ %s.Context",
 	"github.com/pion/udp":                       "var _ = %s.ErrClosedListener",
 	"github.com/energomonitor/bisquitt/packets": "var _ = %s.MinTopicAlias",
 }
@@ -75,6 +78,7 @@ func main() {
 		}
 	}
 	sort.Strings(files)
+	relOf := map[string]string{}
 	ov := map[string]string{}
 	var sites []string
 	nsel := 0
@@ -88,6 +92,9 @@ func main() {
 			continue
 		}
 		rel, _ := filepath.Rel(*repo, f)
+		if r, ok := relOf[f]; ok {
+			rel = r
+		}
 		res, fs, n, err := instrument(f, rel, src)
 		if err != nil {
 			fmt.Fprintln(os.Stderr, "instr:", err)
@@ -230,4 +237,19 @@ func applyEdits(src []byte, edits []edit) []byte {
 		b = append(b[:e.off:e.off], append([]byte(e.text), b[e.off+e.del:]...)...)
 	}
 	return b
+}
+
+// goListDir asks the go command (the one on PATH / GOTOOLCHAIN in force) for a package directory.
+func goListDir(repo, pkg string) string {
+	gobin := os.Getenv("VERIF_GOBIN")
+	if gobin == "" {
+		gobin = "go"
+	}
+	cmd := exec.Command(gobin, "list", "-f", "{{.Dir}}", pkg)
+	cmd.Dir = repo
+	out, err := cmd.Output()
+	if err != nil {
+		return ""
+	}
+	return strings.TrimSpace(string(out))
 }
